@@ -1,5 +1,6 @@
 import StepModel.GenCxxPass
-/-! Invariant of the pass decision under the original last case of `ENUMcanBeProcessed`: nothing is ever marked CANTPROCESS. -/
+/-! Invariants of the pass decision under the original last case of `ENUMcanBeProcessed`:
+    nothing is ever marked CANTPROCESS, and `unknowncnt` accounts for every object a sweep leaves NOTKNOWN. -/
 namespace StepModel.GenFiles.Pass
 open StepModel.Generated.CxxPass
 
@@ -25,62 +26,168 @@ theorem enumCan_of_noCant (os : List Obj) (m : Marks) (e : String) (h : NoCant m
 
 def Good (s : St) : Prop := NoCant s.marks ∧ s.schemaUnprocessed = false
 
-theorem checkItem_good (os : List Obj) (s : St) (parent item : String) (noSel : Bool) (h : Good s) :
-    Good (checkItem .inSchemaOrProcessed os s parent item noSel).1 ∧ (checkItem .inSchemaOrProcessed os s parent item noSel).2 = false := by
+/-- what one `checkItem` / a run of them may do to a Good state on behalf of `parent` -/
+structure Rel (parent : String) (s s' : St) : Prop where
+  good : Good s'
+  mono : s.unknown ≤ s'.unknown
+  others : ∀ k, k ≠ parent → s'.marks k = s.marks k
+  counted : s'.marks parent = .notknown → s.marks parent = .notknown ∨ s.unknown + 1 ≤ s'.unknown
+
+theorem Rel.refl (parent : String) (s : St) (h : Good s) : Rel parent s s :=
+  ⟨h, Int.le_refl _, fun _ _ => rfl, fun hk => Or.inl hk⟩
+
+theorem Rel.trans {parent : String} {a b c : St} (h1 : Rel parent a b) (h2 : Rel parent b c) : Rel parent a c := by
+  refine ⟨h2.good, Int.le_trans h1.mono h2.mono, fun k hk => by rw [h2.others k hk, h1.others k hk], ?_⟩
+  intro hc
+  rcases h2.counted hc with hb | hb
+  · rcases h1.counted hb with ha | ha
+    · exact Or.inl ha
+    · exact Or.inr (Int.le_trans ha h2.mono)
+  · exact Or.inr (by have := h1.mono; omega)
+
+theorem setMark_self (m : Marks) (n : String) (v : Mark) : setMark m n v n = v := by simp [setMark]
+theorem setMark_other (m : Marks) (n k : String) (v : Mark) (h : k ≠ n) : setMark m n v k = m k := by simp [setMark, h]
+
+theorem checkItem_rel (os : List Obj) (s : St) (parent item : String) (noSel : Bool) (h : Good s) :
+    Rel parent s (checkItem .inSchemaOrProcessed os s parent item noSel).1 ∧
+    (checkItem .inSchemaOrProcessed os s parent item noSel).2 = false := by
   unfold checkItem
   cases lookup os item with
-  | none => exact ⟨h, rfl⟩
+  | none => exact ⟨Rel.refl _ _ h, rfl⟩
   | some o =>
     simp only
     by_cases he : o.isEnum = true
     · simp only [he, if_true, enumCan_of_noCant os s.marks item h.1, Bool.not_true, Bool.false_eq_true, if_false]
-      exact ⟨h, trivial⟩
+      exact ⟨Rel.refl _ _ h, trivial⟩
     · simp only [he, Bool.false_eq_true, if_false]
       by_cases hs : (o.isSelect && !noSel) = true
       · simp only [hs, if_true]
         cases hm : s.marks item with
         | cantprocess => exact absurd hm (h.1 item)
-        | notknown => exact ⟨⟨noCant_set _ _ _ h.1 (by decide), h.2⟩, rfl⟩
-        | canprocess => exact ⟨h, rfl⟩
-        | processed => exact ⟨h, rfl⟩
+        | notknown =>
+          simp only
+          by_cases hp : s.marks parent = .notknown
+          · simp only [hp, ne_eq, not_true_eq_false, if_false]
+            exact ⟨Rel.refl _ _ h, trivial⟩
+          · simp only [hp, ne_eq, not_false_eq_true, if_true]
+            refine ⟨⟨⟨noCant_set _ _ _ h.1 (by decide), h.2⟩, by simp; omega, fun k hk => setMark_other _ _ _ _ hk, fun _ => Or.inr (by simp)⟩, trivial⟩
+        | canprocess => exact ⟨Rel.refl _ _ h, rfl⟩
+        | processed => exact ⟨Rel.refl _ _ h, rfl⟩
       · simp only [hs, Bool.false_eq_true, if_false]
-        exact ⟨h, trivial⟩
+        exact ⟨Rel.refl _ _ h, trivial⟩
 
-theorem checkItems_good (os : List Obj) (parent : String) (noSel : Bool) (items : List String) (s : St) (h : Good s) :
-    Good (checkItems .inSchemaOrProcessed os parent noSel s items).1 ∧ (checkItems .inSchemaOrProcessed os parent noSel s items).2 = false := by
+theorem checkItems_rel (os : List Obj) (parent : String) (noSel : Bool) (items : List String) (s : St) (h : Good s) :
+    Rel parent s (checkItems .inSchemaOrProcessed os parent noSel s items).1 ∧
+    (checkItems .inSchemaOrProcessed os parent noSel s items).2 = false := by
   induction items generalizing s with
-  | nil => exact ⟨h, rfl⟩
+  | nil => exact ⟨Rel.refl _ _ h, rfl⟩
   | cons i is ih =>
-    have hc := checkItem_good os s parent i noSel h
+    have hc := checkItem_rel os s parent i noSel h
     simp only [checkItems]
     rw [show (checkItem .inSchemaOrProcessed os s parent i noSel) =
       ((checkItem .inSchemaOrProcessed os s parent i noSel).1, (checkItem .inSchemaOrProcessed os s parent i noSel).2) from rfl]
     simp only [hc.2, Bool.false_eq_true, if_false]
-    exact ih _ hc.1
+    have := ih _ hc.1.good
+    exact ⟨hc.1.trans this.1, this.2⟩
 
-theorem visit_good (os : List Obj) (s : St) (o : Obj) (h : Good s) : Good (visit .inSchemaOrProcessed os s o) := by
-  unfold visit
-  split
-  · exact h
+/-- one visit: a Good state stays Good, `unknowncnt` never decreases, only the visited object's mark changes, and if it
+    ends NOTKNOWN it has been counted -/
+theorem visit_rel (os : List Obj) (s : St) (o : Obj) (h : Good s) :
+    Good (visit .inSchemaOrProcessed os s o) ∧ s.unknown ≤ (visit .inSchemaOrProcessed os s o).unknown ∧
+    (∀ k, k ≠ o.name → (visit .inSchemaOrProcessed os s o).marks k = s.marks k) ∧
+    ((visit .inSchemaOrProcessed os s o).marks o.name = .notknown → s.unknown + 1 ≤ (visit .inSchemaOrProcessed os s o).unknown) := by
+  by_cases hn : s.marks o.name ≠ .notknown
+  · have e : visit .inSchemaOrProcessed os s o = s := by unfold visit; rw [if_pos hn]
+    rw [e]
+    exact ⟨h, Int.le_refl _, fun _ _ => rfl, fun hk => absurd hk hn⟩
   · have h1 : Good { s with marks := setMark s.marks o.name .canprocess } :=
       ⟨noCant_set _ _ _ h.1 (by decide), h.2⟩
-    have h2 := checkItems_good os o.name false o.items _ h1
-    simp only
-    rw [show (checkItems .inSchemaOrProcessed os o.name false { s with marks := setMark s.marks o.name .canprocess } o.items) =
-      ((checkItems .inSchemaOrProcessed os o.name false { s with marks := setMark s.marks o.name .canprocess } o.items).1,
-       (checkItems .inSchemaOrProcessed os o.name false { s with marks := setMark s.marks o.name .canprocess } o.items).2) from rfl]
-    simp only [h2.2, Bool.false_eq_true, if_false]
-    exact (checkItems_good os o.name true o.entAttrTypes _ h2.1).1
+    have h2 := checkItems_rel os o.name false o.items _ h1
+    have h3 := checkItems_rel os o.name true o.entAttrTypes _ h2.1.good
+    have e : visit .inSchemaOrProcessed os s o =
+        (checkItems .inSchemaOrProcessed os o.name true
+          (checkItems .inSchemaOrProcessed os o.name false { s with marks := setMark s.marks o.name .canprocess } o.items).1
+          o.entAttrTypes).1 := by
+      unfold visit
+      rw [if_neg hn]
+      simp only [h2.2, Bool.false_eq_true, if_false]
+    rw [e]
+    have r := h2.1.trans h3.1
+    refine ⟨r.good, r.mono, fun k hk => by rw [r.others k hk]; exact setMark_other _ _ _ _ hk, ?_⟩
+    intro hk
+    rcases r.counted hk with hc | hc
+    · rw [show ({ s with marks := setMark s.marks o.name .canprocess } : St).marks o.name = .canprocess from setMark_self _ _ _] at hc
+      exact absurd hc (by decide)
+    · exact hc
 
-theorem sweep_good (os order : List Obj) (s : St) (h : Good s) : Good (sweep .inSchemaOrProcessed os order s) := by
+theorem visit_good (os : List Obj) (s : St) (o : Obj) (h : Good s) : Good (visit .inSchemaOrProcessed os s o) :=
+  (visit_rel os s o h).1
+
+/-- invariant of a sweep started with `unknowncnt = u0`: every object of the visited prefix that is NOTKNOWN now has
+    been counted -/
+theorem sweep_counts (os : List Obj) (order : List Obj) (s : St) (u0 : Int) (P : String → Prop)
+    (h : Good s) (hu : u0 ≤ s.unknown) (hP : ∀ k, P k → s.marks k = .notknown → u0 + 1 ≤ s.unknown) :
+    Good (sweep .inSchemaOrProcessed os order s) ∧ u0 ≤ (sweep .inSchemaOrProcessed os order s).unknown ∧
+    ∀ k, (P k ∨ ∃ o ∈ order, o.name = k) → (sweep .inSchemaOrProcessed os order s).marks k = .notknown →
+      u0 + 1 ≤ (sweep .inSchemaOrProcessed os order s).unknown := by
   unfold sweep
-  induction order generalizing s with
-  | nil => exact h
-  | cons o rest ih => exact ih _ (visit_good os s o h)
+  induction order generalizing s P with
+  | nil =>
+    refine ⟨h, hu, ?_⟩
+    intro k hk hm
+    rcases hk with hk | ⟨o, ho, _⟩
+    · exact hP k hk hm
+    · exact absurd ho List.not_mem_nil
+  | cons o rest ih =>
+    have v := visit_rel os s o h
+    simp only [List.foldl_cons]
+    have hP' : ∀ k, (P k ∨ k = o.name) → (visit .inSchemaOrProcessed os s o).marks k = .notknown →
+        u0 + 1 ≤ (visit .inSchemaOrProcessed os s o).unknown := by
+      intro k hk hm
+      by_cases hko : k = o.name
+      · subst hko
+        have := v.2.2.2 hm
+        omega
+      · rcases hk with hk | hk
+        · rw [v.2.2.1 k hko] at hm
+          have := hP k hk hm
+          have := v.2.1
+          omega
+        · exact absurd hk hko
+    have r := ih (visit .inSchemaOrProcessed os s o) (fun k => P k ∨ k = o.name) v.1 (Int.le_trans hu v.2.1) hP'
+    refine ⟨r.1, r.2.1, ?_⟩
+    intro k hk hm
+    apply r.2.2 k ?_ hm
+    rcases hk with hk | ⟨o', ho', hn⟩
+    · exact Or.inl (Or.inl hk)
+    · rcases List.mem_cons.mp ho' with rfl | ho'
+      · exact Or.inl (Or.inr hn.symm)
+      · exact Or.inr ⟨o', ho', hn⟩
+
+theorem sweep_good (os order : List Obj) (s : St) (h : Good s) : Good (sweep .inSchemaOrProcessed os order s) :=
+  (sweep_counts os order s s.unknown (fun _ => False) h (Int.le_refl _) (fun _ hk => absurd hk id)).1
 
 theorem sweeps_good (os order : List Obj) (n : Nat) (s : St) (h : Good s) : Good (sweeps .inSchemaOrProcessed os order n s) := by
   induction n generalizing s with
   | zero => exact h
   | succ n ih => exact ih _ (sweep_good os order s h)
+
+theorem loopState_good (os order : List Obj) (k : Nat) : Good (loopState .inSchemaOrProcessed os order k) := by
+  induction k with
+  | zero => exact ⟨fun k => by simp [loopState, initial], rfl⟩
+  | succ k ih => exact sweep_good os order _ ⟨ih.1, ih.2⟩
+
+/-- if an iteration of the loop ends with `unknowncnt ≤ 0`, every object of the sweep order has a verdict -/
+theorem settled_of_unknown_zero (os order : List Obj) (k : Nat)
+    (h0 : (loopState .inSchemaOrProcessed os order (k + 1)).unknown ≤ 0) :
+    Settled order (loopState .inSchemaOrProcessed os order (k + 1)) := by
+  have g := loopState_good os order k
+  have r := sweep_counts os order { loopState .inSchemaOrProcessed os order k with unknown := 0 } 0 (fun _ => False)
+    ⟨g.1, g.2⟩ (Int.le_refl _) (fun _ hk => absurd hk id)
+  intro o ho hm
+  have hm' : (sweep .inSchemaOrProcessed os order { loopState .inSchemaOrProcessed os order k with unknown := 0 }).marks o.name = .notknown := hm
+  have h0' : (sweep .inSchemaOrProcessed os order { loopState .inSchemaOrProcessed os order k with unknown := 0 }).unknown ≤ 0 := h0
+  have := r.2.2 o.name (Or.inr ⟨o, ho, rfl⟩) hm'
+  omega
 
 end StepModel.GenFiles.Pass
